@@ -180,7 +180,27 @@ FiltVerdict(e) ==
                        IN <<x[1], x[2], e.d[x[1]][x[2]], e.out.d[x[1]][x[2]],
                             IF WinFits(e, x[1], x[2]) THEN {e.d[y[1]][y[2]] : y \in WinCells(e, x[1], x[2])} ELSE {}>>]
 
+\* regularisation of median_for_intervals (C10 / C12): run 0 = same filter without regularisation, run 1 = with
+\* regularisation (quantile 1), possibly applied repeatedly; bands jointly rank-encoded
+RegVerdict(e) ==
+   LET b0(x) == Bits(e.vm0[x[1]][x[2]])  b1(x) == Bits(e.vm1[x[1]][x[2]])
+       wf == {x \in Pix(e) : ~WellFormedFlag(e.vm1[x[1]][x[2]])}
+       badbits == {x \in Pix(e) \ wf : ~(b0(x) \subseteq b1(x) /\ (b1(x) \ b0(x)) \subseteq {11})}
+       notreg == {x \in Pix(e) \ wf : e.strict /\ 11 \notin b1(x) /\ ~(e.inf1[x[1]][x[2]] = e.inf0[x[1]][x[2]] /\ e.sup1[x[1]][x[2]] = e.sup0[x[1]][x[2]])}
+       widen == {x \in Pix(e) : e.inf0[x[1]][x[2]] # NaN /\ e.sup0[x[1]][x[2]] # NaN
+                                 /\ ~(e.inf1[x[1]][x[2]] # NaN /\ e.sup1[x[1]][x[2]] # NaN
+                                      /\ e.inf1[x[1]][x[2]] <= e.inf0[x[1]][x[2]] /\ e.sup1[x[1]][x[2]] >= e.sup0[x[1]][x[2]])}
+       one(S) == IF S = {} THEN <<>> ELSE LET x == CHOOSE y \in S : TRUE
+                 IN <<x[1], x[2], e.vm0[x[1]][x[2]], e.vm1[x[1]][x[2]], e.inf0[x[1]][x[2]], e.inf1[x[1]][x[2]], e.sup0[x[1]][x[2]], e.sup1[x[1]][x[2]]>>
+   IN [failed |-> (IF wf # {} THEN {"undocumented_bit"} ELSE {})
+                  \cup (IF badbits # {} THEN {"mask_only_bit11"} ELSE {})
+                  \cup (IF notreg # {} THEN {"unregularized_pixel_unchanged"} ELSE {})
+                  \cup (IF widen # {} THEN {"regularization_only_widens"} ELSE {})
+                  \cup (IF ~e.frame_other THEN {"other_data_unchanged"} ELSE {}),
+       detail |-> IF wf # {} THEN one(wf) ELSE IF badbits # {} THEN one(badbits) ELSE IF notreg # {} THEN one(notreg) ELSE one(widen)]
+
 Verdict(e) == CASE e.step = "matching_cost" -> McVerdict(e)
+                [] e.step = "regularize" -> RegVerdict(e)
                 [] e.step = "filter" -> FiltVerdict(e)
                 [] e.step = "cross_check" -> XcVerdict(e)
                 [] e.step = "refinement" -> RefVerdict(e)
